@@ -485,6 +485,15 @@ def _clean_up_state(state: State) -> None:
         for action_uid in flow_state.action_uids:
             if action_uid not in new_action_dict:
                 new_action_dict.update({action_uid: state.actions[action_uid]})
+        # An action can also be referenced by a variable of a flow that did not start it
+        # (e.g. `$a = await s` where the flow `s` returns a reference to an action it started)
+        for value in flow_state.context.values():
+            if (
+                isinstance(value, Action)
+                and value.uid in state.actions
+                and value.uid not in new_action_dict
+            ):
+                new_action_dict.update({value.uid: state.actions[value.uid]})
     state.actions = new_action_dict
 
 
